@@ -248,7 +248,7 @@ def run_task(source, contracts, loops, qualname, natives=None, timeout_ms=10000,
                     continue
                 if contract.pure:
                     ch = heap_changes(before, st1)
-                    ctx.oblige(st1, "frame-write", "modifies-nothing" + (": " + "; ".join(ch) if ch else ""), len(ch) == 0, fnode)
+                    ctx.oblige(st1, "frame-write", "modifies-nothing" + (": " + "; ".join(ch) if ch else ""), z3.BoolVal(len(ch) == 0), fnode)
                 env2 = dict(env)
                 env2["result"] = value
                 ev = SpecEval(ex, st1, env2, old_st)
